@@ -55,6 +55,15 @@ CHECKS = {
  "C20": ("enumerated single-option perturbations (flag / file / both / none) against a field->observable table on CLI-built fonts; pairs of configs vs solo builds (bytes)", "§4 C20",
          "Every field of the option table is perturbed by flag and by file on every run (all channels and families in the thorough tier) and the observable it must determine is read from the font the real CLI writes (all other observables must stay at their expected values); every pair option is built jointly and solo and compared bytewise. Finite enumeration of fields/channels plus generated combinations.",
          "Trusted: fontTools decompilers; reference interpreters for the transform observable; SOURCE_DATE_EPOCH for byte equality."),
+ "C07": ("generated fonts of all 13 formats + real CLI build directories; raw-byte ordering/range/reference predicates and save->reload->TTX equality", "§4 C07",
+         "Fonts from the vector, raw-SVG, sequence and bitmap generators in every format, plus every font file found in real nanoemoji / maximum_color build directories, are checked against table-level predicates read from the raw bytes (orderings) and the decompiled font (ranges, references, id uniqueness, glyph-set agreement) and must survive save+reload with equal TTX. Sampling.",
+         "Trusted: fontTools decompilers for everything but the ordering facts; lxml."),
+ "C12": ("generated nanoemoji-style and third-party-style COLR/SVG fonts x flags through the real maximum_color CLI; input vs output by the text that reaches each glyph; new table vs old table as display trees", "§4 C12",
+         "Generated input fonts (nanoemoji's own output in five formats; third-party-style COLR fonts from the paint-graph generator with/without space glyph, layout tables, palettes, post 2/3; self-layer fonts) are run through the real maximum_color with generated flags; cmap, advances, outlines, the original colour table, layout meaning and post format must be unchanged and the added table must paint the same picture; bitmaps per C14; every intermediate font per C07. Sampling.",
+         "Trusted: the COLR/SVG interpreters (both tables of the output are read by ours), fontTools, resvg/picosvg as tools."),
+ "C18": ("generated compatible master sets through the real CLI; VF evaluated at master locations (own VarStore evaluation) vs static builds; clip box containment along the axis", "§4 C18",
+         "Generated 2-3 master configurations (drawn axis range, default master, file/name order independent of position order, per-master coordinates and gradient geometry) built by the real CLI as a variable font and as one static font per master; trees, advances and clip boxes must agree at every master location and at the default, clip boxes must contain the interpolated geometry at intermediate locations. Sampling.",
+         "Trusted: fontTools gvar/HVAR glyph-set interpolation and VarStoreInstancer; PaintVar*/ClipBox format 2 evaluated by vlib/ref_colr.py."),
 }
 NOT_APPLICABLE = []
 def main():
